@@ -2,14 +2,20 @@ import HypatiaProofs.Lemmas.QueryCongr
 import HypatiaProofs.Lemmas.QueryCompl
 import HypatiaProofs.Lemmas.FieldQuery
 import HypatiaProofs.Lemmas.KeywordQuery
+import HypatiaProofs.Lemmas.FacetCounts
+import HypatiaProofs.Lemmas.TextExec
+import HypatiaProofs.Lemmas.TextStep
+import HypatiaProofs.Lemmas.QueryLeaves
 import HypatiaModel.QueryModel
 
 /-!
 # Leaves of a query answered by the index models = leaves answered by the specification
 
-For every history of a field index (C01) and of a keyword index (C02) the model's `applyX` functions
-return the members the specification-level leaf of `Query.lean` returns, and raise the same errors;
-with `applyQL_congr` this lifts to every query tree (`applyQM_refines`).
+For every history of a field index (C01), of a keyword index (C02), of a facet index (C13) and of a text
+index (C03, under its hypotheses `histOK`) the model's `applyX` functions return the members the
+specification-level leaf of `Query.lean` returns, and raise the same errors; with `applyQL_congr` (and
+`applyQL_ext` for the text leaves, which must name a query string of the dictionary) this lifts to every
+query tree (`applyQM_refines`).
 -/
 set_option linter.unusedSectionVars false
 set_option linter.unusedSimpArgs false
@@ -157,16 +163,282 @@ theorem keyword_leafPos_refines (h : List (Keyword.Op Int)) (c : Cmp) (v : Val) 
           exact ⟨Keyword.known_of_kw (hall a (by simp)), hall⟩
       · exact fun hk => ⟨he, hk.2⟩
 
-theorem leafPos_refines (h : IndexH) (c : Cmp) (v : Val) :
+/-! ### facet: the dictionary of names, rows of numbers -/
+
+section rows
+variable {K : Type} [DecidableEq K]
+
+theorem mem_numsOf (names ks : List K) (x : Int) :
+    x ∈ numsOf names ks ↔ 0 ≤ x ∧ ∃ k, names[x.toNat]? = some k ∧ k ∈ ks := by
+  unfold numsOf
+  simp only [List.mem_map, List.mem_filter, List.mem_range]
+  constructor
+  · rintro ⟨i, ⟨hi, hk⟩, rfl⟩
+    refine ⟨Int.natCast_nonneg i, ?_⟩
+    simp only [Int.ofNat_eq_natCast, Int.toNat_natCast]
+    cases hn : names[i]? with
+    | none => simp [hn] at hk
+    | some k => simp [hn] at hk; exact ⟨k, rfl, hk⟩
+  · rintro ⟨h0, k, hk, hks⟩
+    refine ⟨x.toNat, ⟨?_, by simp [hk, hks]⟩, by simp [Int.toNat_of_nonneg h0]⟩
+    exact (List.getElem?_eq_some_iff.mp hk).1
+
+/-- a dictionary entry occurs in `ks` exactly when its number is in the row (the default names nothing) -/
+theorem nth_mem_iff (names ks : List K) (dflt : K) (hd : dflt ∉ ks) (x : Int) :
+    nth names dflt x ∈ ks ↔ x ∈ numsOf names ks := by
+  rw [mem_numsOf]
+  unfold nth
+  by_cases h0 : x < 0
+  · simp only [h0, if_true]
+    constructor
+    · intro h; exact absurd h hd
+    · rintro ⟨h, _⟩; omega
+  · simp only [h0, if_false]
+    have h0' : 0 ≤ x := by omega
+    cases hn : names[x.toNat]? with
+    | none => simp [hd]
+    | some k => simp [h0']
+
+theorem numsOf_nil (names : List K) : numsOf names ([] : List K) = [] := by
+  unfold numsOf
+  rw [List.map_eq_nil_iff, List.filter_eq_nil_iff]
+  intro i _
+  cases names[i]? <;> simp
+
+/-- a keyword-style specification table with its rows translated by `f` -/
+def rowTable (f : List K → List Int) (T : Keyword.Spec.Table K) : AMap Int (Option (List Int)) :=
+  (Keyword.Spec.known T).map (fun d => (d, ((AMap.get T d).bind id).map f))
+
+theorem kwKnown_rowTable (f : List K → List Int) (T : Keyword.Spec.Table K) :
+    kwKnown (rowTable f T) = Keyword.Spec.known T := by
+  simp [kwKnown, rowTable, AMap.keys, List.map_map, Function.comp_def]
+
+theorem kwOf_of_bind' {T : Keyword.Spec.Table K} {d : Int} {ks : List K}
+    (h : (AMap.get T d).bind id = some ks) : Keyword.Spec.kwOf T d = ks := by
+  unfold Keyword.Spec.kwOf
+  cases hg : AMap.get T d with
+  | none => simp [hg] at h
+  | some o =>
+    cases o with
+    | none => simp [hg] at h
+    | some l => simp [hg] at h; simp [h]
+
+theorem kwOf_of_bind_none' {T : Keyword.Spec.Table K} {d : Int}
+    (h : (AMap.get T d).bind id = none) : Keyword.Spec.kwOf T d = [] := by
+  unfold Keyword.Spec.kwOf
+  cases hg : AMap.get T d with
+  | none => rfl
+  | some o =>
+    cases o with
+    | none => rfl
+    | some l => simp [hg] at h
+
+theorem mem_kwSat_rowTable (f : List K → List Int) (T : Keyword.Spec.Table K) (p : List Int → Bool)
+    (hp : p (f []) = false) (d : Int) :
+    d ∈ kwSat (rowTable f T) p ↔ d ∈ Keyword.Spec.known T ∧ p (f (Keyword.Spec.kwOf T d)) = true := by
+  rw [mem_kwSat, kwKnown_rowTable]
+  unfold rowTable
+  rw [get_map_pair]
+  constructor
+  · rintro ⟨hk, ks, hb, hpk⟩
+    refine ⟨hk, ?_⟩
+    simp only [hk, if_true, Option.bind_some, id] at hb
+    cases hb' : (AMap.get T d).bind id with
+    | none => simp [hb'] at hb
+    | some l =>
+      simp [hb'] at hb
+      rw [kwOf_of_bind' hb', hb]; exact hpk
+  · rintro ⟨hk, hpk⟩
+    refine ⟨hk, ?_⟩
+    simp only [hk, if_true, Option.bind_some, id]
+    cases hb' : (AMap.get T d).bind id with
+    | none => rw [kwOf_of_bind_none' hb', hp] at hpk; cases hpk
+    | some l => exact ⟨f l, rfl, by rw [← kwOf_of_bind' hb']; exact hpk⟩
+
+end rows
+
+theorem facetTable_eq (names : List Facet.Facet) (T : Keyword.Spec.Table Facet.Facet) :
+    facetTable names T = rowTable (numsOf names) T := rfl
+
+theorem nil_not_listed (F : List Facet.Facet) (t : Facet.Spec.Table) (d : Int) :
+    ([] : Facet.Facet) ∉ Keyword.Spec.kwOf (Facet.Spec.kwTable F t) d := by
+  rw [Facet.kwOf_kwTable, Facet.mem_listed]
+  rintro ⟨_, p, _, hp⟩
+  simp [Facet.Spec.isPrefix] at hp
+
+theorem facet_leafPos_refines (names F0 : List Facet.Facet) (h : List Facet.Op) (c : Cmp) (v : Val) :
+    ResEq (leafPosM (.facet names (Facet.run F0 h)) c v)
+      (leafPos (.keyword (facetTable names (Facet.Spec.kwTable (Keyword.dedup F0) (Facet.Spec.table h)))) c v) := by
+  have hv := Facet.facet_run_viewOK F0 h
+  have hnil := nil_not_listed (Keyword.dedup F0) (Facet.Spec.table h)
+  rw [facetTable_eq]
+  cases c <;> first
+    | (cases v <;> exact rfl)
+    | skip
+  · -- eq
+    cases v with
+    | many xs => exact rfl
+    | one x =>
+      apply resEq_ok; intro d
+      show d ∈ Keyword.applyEq _ (nth names [] x) ↔ d ∈ kwSat _ _
+      rw [Keyword.mem_applyEq hv, mem_kwSat_rowTable _ _ _ (by simp [numsOf_nil])]
+      simp only [decide_eq_true_eq]
+      rw [nth_mem_iff _ _ _ (hnil d)]
+      constructor
+      · intro hk
+        refine ⟨?_, hk⟩
+        obtain ⟨_, k, _, hkk⟩ := (mem_numsOf _ _ _).mp hk
+        exact Keyword.known_of_kw hkk
+      · exact fun hk => hk.2
+  · -- any
+    apply resEq_ok; intro d
+    show d ∈ Keyword.applyAny _ ((valList v).map (nth names [])) ↔ d ∈ kwSat _ _
+    rw [Keyword.mem_applyAny hv, mem_kwSat_rowTable _ _ _ (by simp [numsOf_nil])]
+    simp only [List.any_eq_true, decide_eq_true_eq, List.mem_map]
+    constructor
+    · rintro ⟨k, ⟨x, hx, rfl⟩, hd⟩
+      exact ⟨Keyword.known_of_kw hd, x, hx, (nth_mem_iff _ _ _ (hnil d) x).mp hd⟩
+    · rintro ⟨_, x, hx, hd⟩
+      exact ⟨_, ⟨x, hx, rfl⟩, (nth_mem_iff _ _ _ (hnil d) x).mpr hd⟩
+  · -- all
+    apply resEq_ok; intro d
+    show d ∈ Keyword.applyAll _ ((valList v).map (nth names [])) ↔
+      d ∈ (if (valList v).isEmpty then [] else kwSat _ _)
+    rw [Keyword.mem_applyAll hv]
+    by_cases he : valList v = []
+    · simp [he]
+    · have he' : (valList v).isEmpty = false := by cases hvl : valList v <;> simp_all
+      simp only [he', Bool.false_eq_true, if_false]
+      rw [mem_kwSat_rowTable _ _ _ (by cases hvl : valList v <;> simp_all [numsOf_nil])]
+      simp only [List.all_eq_true, decide_eq_true_eq, List.mem_map, ne_eq, List.map_eq_nil_iff]
+      constructor
+      · rintro ⟨_, hall⟩
+        have hall' : ∀ x ∈ valList v, x ∈ numsOf names
+            (Keyword.Spec.kwOf (Facet.Spec.kwTable (Keyword.dedup F0) (Facet.Spec.table h)) d) :=
+          fun x hx => (nth_mem_iff _ _ _ (hnil d) x).mp (hall _ ⟨x, hx, rfl⟩)
+        cases hvl : valList v with
+        | nil => exact absurd hvl he
+        | cons a rest =>
+          rw [hvl] at hall'
+          obtain ⟨_, k, _, hkk⟩ := (mem_numsOf _ _ _).mp (hall' a (by simp))
+          exact ⟨Keyword.known_of_kw hkk, hall'⟩
+      · rintro ⟨_, hall⟩
+        refine ⟨he, ?_⟩
+        rintro k ⟨x, hx, rfl⟩
+        exact (nth_mem_iff _ _ _ (hnil d) x).mpr (hall x hx)
+
+/-! ### text: the dictionary of query strings, rows of satisfied queries (C03) -/
+
+theorem mem_satNums (cfg : Lex.Cfg) (sp : Nat → Bool) (qs : List QP.Str) (toks : List QP.Str) (x : Int) :
+    x ∈ satNums cfg sp qs toks ↔ 0 ≤ x ∧ ∃ q t ig, qs[x.toNat]? = some q ∧
+      QP.parseQuery (Text.lexOf cfg) sp q = .ok (t, ig) ∧ Text.Spec.sat t toks = true := by
+  unfold satNums
+  simp only [List.mem_map, List.mem_filter, List.mem_range]
+  constructor
+  · rintro ⟨i, ⟨hi, hk⟩, rfl⟩
+    refine ⟨Int.natCast_nonneg i, ?_⟩
+    simp only [Int.ofNat_eq_natCast, Int.toNat_natCast]
+    cases hn : qs[i]? with
+    | none => simp [hn] at hk
+    | some q =>
+      simp only [hn] at hk
+      cases hp : QP.parseQuery (Text.lexOf cfg) sp q with
+      | error e => simp [hp] at hk
+      | ok r => obtain ⟨t, ig⟩ := r; simp only [hp] at hk; exact ⟨q, t, ig, rfl, hp, hk⟩
+  · rintro ⟨h0, q, t, ig, hk, hp, hs⟩
+    refine ⟨x.toNat, ⟨(List.getElem?_eq_some_iff.mp hk).1, by simp [hk, hp, hs]⟩,
+      by simp [Int.toNat_of_nonneg h0]⟩
+
+theorem kwKnown_textTable (cfg : Lex.Cfg) (sp : Nat → Bool) (qs : List QP.Str) (T : Text.Spec.Table) :
+    kwKnown (textTable cfg sp qs T) = AMap.keys T := by
+  simp [kwKnown, textTable, AMap.keys, List.map_map, Function.comp_def]
+
+theorem queryOK_spec {cfg : Lex.Cfg} {sp : Nat → Bool} {q : QP.Str} (h : queryOK cfg sp q = true) :
+    ∃ t ig, QP.parseQuery (Text.lexOf cfg) sp q = .ok (t, ig) ∧ Text.Spec.admissible cfg t = true := by
+  unfold queryOK at h
+  cases hp : QP.parseQuery (Text.lexOf cfg) sp q with
+  | error e => simp [hp] at h
+  | ok r => obtain ⟨t, ig⟩ := r; simp only [hp] at h; exact ⟨t, ig, rfl, h⟩
+
+theorem histOK_text {cfg : Lex.Cfg} {okapi : Bool} {sp : Nat → Bool} {qs : List QP.Str} {h : List Text.Op}
+    (hok : histOK (.text cfg okapi sp qs h) = true) :
+    Text.Small (Text.run cfg okapi h).base.lex ∧ ∀ q ∈ qs, queryOK cfg sp q = true := by
+  simp only [histOK, Bool.and_eq_true, decide_eq_true_eq, List.all_eq_true] at hok
+  exact ⟨hok.1, hok.2⟩
+
+/-- `Contains x` / `Eq x` for a listed query string: C03's `apply_spec` against the row table -/
+theorem textPos_refines (cfg : Lex.Cfg) (okapi : Bool) (sp : Nat → Bool) (qs : List QP.Str) (h : List Text.Op)
+    (hok : histOK (.text cfg okapi sp qs h) = true) (x : Int) (h0 : 0 ≤ x) (hx : x.toNat < qs.length) :
+    ResEq (textPos cfg sp qs (Text.run cfg okapi h) x)
+      (.ok (kwSat (textTable cfg sp qs (Text.Spec.table cfg h)) (fun ks => decide (x ∈ ks)))) := by
+  obtain ⟨hs, hq⟩ := histOK_text hok
+  have hi := Text.inv_run cfg okapi h hs
+  have hnth : nth qs [] x = qs[x.toNat] := by
+    unfold nth; simp [Int.not_lt.mpr h0, List.getElem?_eq_getElem hx]
+  have hget : qs[x.toNat]? = some qs[x.toNat] := List.getElem?_eq_getElem hx
+  obtain ⟨t, ig, hp, hadm⟩ := queryOK_spec (hq _ (List.getElem_mem hx))
+  obtain ⟨r, h1, h2⟩ := Text.apply_spec cfg sp hi hs _ t ig hp hadm
+  unfold textPos Text.applyContains
+  rw [hnth, h1]
+  apply resEq_ok; intro d
+  rw [h2 d, mem_kwSat, kwKnown_textTable]
+  unfold textTable
+  rw [get_map_pair, Text.satDoc_iff]
+  constructor
+  · rintro ⟨toks, ht, hsat⟩
+    have hk : d ∈ AMap.keys (Text.Spec.table cfg h) := by
+      rw [AMap.mem_keys_iff]
+      unfold Text.Spec.tokensOf at ht
+      cases hg : AMap.get (Text.Spec.table cfg h) d with
+      | none => rw [hg] at ht; cases ht
+      | some v => rfl
+    refine ⟨hk, satNums cfg sp qs toks, by simp [hk, ht], ?_⟩
+    simp only [decide_eq_true_eq]
+    exact (mem_satNums cfg sp qs toks x).mpr ⟨h0, _, t, ig, hget, hp, hsat⟩
+  · rintro ⟨hk, ks, hb, hxk⟩
+    simp only [hk, if_true, Option.bind_some, id] at hb
+    cases ht : Text.Spec.tokensOf (Text.Spec.table cfg h) d with
+    | none => simp [ht] at hb
+    | some toks =>
+      simp [ht] at hb
+      subst hb
+      simp only [decide_eq_true_eq] at hxk
+      obtain ⟨_, q', t', ig', hq', hp', hsat⟩ := (mem_satNums cfg sp qs toks x).mp hxk
+      rw [hget] at hq'
+      cases hq'
+      rw [hp] at hp'
+      cases hp'
+      exact ⟨toks, rfl, hsat⟩
+
+theorem text_leafPos_refines (cfg : Lex.Cfg) (okapi : Bool) (sp : Nat → Bool) (qs : List QP.Str)
+    (h : List Text.Op) (hok : histOK (.text cfg okapi sp qs h) = true) (c : Cmp) (v : Val)
+    (hl : listedAt (.text cfg okapi sp qs h) c v = true) :
+    ResEq (leafPosM (.text cfg sp qs (Text.run cfg okapi h)) c v)
+      (leafPos (.text (textTable cfg sp qs (Text.Spec.table cfg h))) c v) := by
+  cases c <;> cases v <;> first
+    | exact rfl
+    | skip
+  · next x =>
+    simp [listedAt, textCmp] at hl
+    exact textPos_refines cfg okapi sp qs h hok x hl.1 hl.2
+  · next x =>
+    simp [listedAt, textCmp] at hl
+    exact textPos_refines cfg okapi sp qs h hok x hl.1 hl.2
+
+/-! ### all four kinds -/
+
+theorem leafPos_refines (h : IndexH) (hok : histOK h = true) (c : Cmp) (v : Val)
+    (hl : listedAt h c v = true) :
     ResEq (leafPosM (modelIndex h) c v) (leafPos (specIndex h) c v) := by
   cases h with
   | field h => exact field_leafPos_refines h c v
   | keyword h => exact keyword_leafPos_refines h c v
-  | text t => exact ResEq.refl _
+  | facet names F0 h => exact facet_leafPos_refines names F0 h c v
+  | text cfg okapi sp qs h => exact text_leafPos_refines cfg okapi sp qs h hok c v hl
 
 /-! ### `_negate` -/
 
-theorem negM_refines (h : IndexH) (a b : IdSet) (hab : a ≈ˢ b) :
+theorem negM_refines (h : IndexH) (hok : histOK h = true) (a b : IdSet) (hab : a ≈ˢ b) :
     negM (modelIndex h) a ≈ˢ negOf (specIndex h) b := by
   intro d
   rw [mem_negOf]
@@ -180,18 +452,34 @@ theorem negM_refines (h : IndexH) (a b : IdSet) (hab : a ≈ˢ b) :
     show d ∈ (Keyword.run h).view.negate a ↔ d ∈ known (.keyword (kwTable (Keyword.Spec.table h))) ∧ d ∉ b
     rw [Keyword.View.mem_negate (Keyword.run_viewOK h)]
     simp only [known, kwKnown_kwTable, hab d]
-  | text t =>
-    show d ∈ negOf (.text t) a ↔ d ∈ known (.text t) ∧ d ∉ b
-    rw [mem_negOf, hab d]
+  | facet names F0 h =>
+    show d ∈ (Facet.run F0 h).ks.view.negate a ↔ d ∈ known (.keyword (facetTable names _)) ∧ d ∉ b
+    rw [Keyword.View.mem_negate (Facet.facet_run_viewOK F0 h), facetTable_eq]
+    simp only [known, kwKnown_rowTable, hab d]
+  | text cfg okapi sp qs h =>
+    obtain ⟨hs, _⟩ := histOK_text hok
+    have hi := Text.inv_run cfg okapi h hs
+    show d ∈ (if a.isEmpty then Text.docids _ else LSet.diff (Text.docids _) a) ↔
+      d ∈ known (.text (textTable cfg sp qs (Text.Spec.table cfg h))) ∧ d ∉ b
+    simp only [known, kwKnown_textTable, Text.mem_keys_table hi, ← hab d]
+    by_cases he : a.isEmpty = true
+    · rw [List.isEmpty_iff] at he
+      simp [he]
+    · simp only [he, Bool.false_eq_true, if_false]
+      rw [LSet.mem_diff]
 
-theorem leafIndex_refines (h : IndexH) (c : Cmp) (v : Val) :
+theorem positive_textCmp {c p : Cmp} (h : c.positive = some p) : textCmp p = textCmp c := by
+  cases c <;> simp [Cmp.positive] at h <;> subst h <;> rfl
+
+theorem leafIndex_refines (h : IndexH) (hok : histOK h = true) (c : Cmp) (v : Val)
+    (hl : listedAt h c v = true) :
     ResEq (leafIndexM (modelIndex h) c v) (leafIndex (specIndex h) c v) := by
   unfold leafIndexM leafIndex
   cases hp : c.positive with
-  | none => exact leafPos_refines h c v
+  | none => exact leafPos_refines h hok c v hl
   | some p =>
     simp only
-    have := leafPos_refines h p v
+    have := leafPos_refines h hok p v (by rw [listedAt_congr h (positive_textCmp hp)]; exact hl)
     cases e1 : leafPosM (modelIndex h) p v with
     | error e =>
       cases e2 : leafPos (specIndex h) p v with
@@ -202,7 +490,7 @@ theorem leafIndex_refines (h : IndexH) (c : Cmp) (v : Val) :
       | error e' => rw [e1, e2] at this; exact this.elim
       | ok b =>
         rw [e1, e2] at this
-        exact negM_refines h a b this
+        exact negM_refines h hok a b this
 
 /-! ### ranges -/
 
@@ -213,27 +501,39 @@ theorem rangePos_refines (h : IndexH) (lo hi : Int) (el eh : Bool) :
     apply resEq_ok; intro d
     exact Field.mem_applyInRange (Field.run_inv h) _ _ _ _ d
   | keyword h => exact rfl
-  | text t => exact rfl
+  | facet names F0 h => exact rfl
+  | text cfg okapi sp qs h => exact rfl
 
 /-! ### catalogs -/
 
-theorem applyCmp_refines (hs : List IndexH) (c : Cmp) (i : Nat) (v : Val) :
+/-- C03's hypotheses hold of every text index of the catalog -/
+def HistsOK (hs : List IndexH) : Prop := ∀ h ∈ hs, histOK h = true
+
+theorem applyCmp_refines (hs : List IndexH) (hok : HistsOK hs) (c : Cmp) (i : Nat) (v : Val)
+    (hl : listedLeaf hs c i v = true) :
     ResEq (applyCmpM (modelCatalog hs) c i v) (applyCmp (specCatalog hs) c i v) := by
   unfold applyCmpM applyCmp getIndexM getIndex modelCatalog specCatalog
   simp only [List.getElem?_map]
-  cases hs[i]? with
+  unfold listedLeaf at hl
+  cases hi : hs[i]? with
   | none => exact rfl
   | some h =>
+    simp only [hi] at hl
+    have hokh := hok h (List.mem_of_getElem? hi)
     simp only [Option.map_some, bind, Except.bind]
-    cases c <;> exact leafIndex_refines h _ v
+    cases c
+    case notall => exact leafIndex_refines h hokh _ v (listedAt_of_not_text h rfl v)
+    all_goals exact leafIndex_refines h hokh _ v hl
 
-theorem applyRange_refines (hs : List IndexH) (neg : Bool) (i : Nat) (lo hi : Int) (el eh : Bool) :
+theorem applyRange_refines (hs : List IndexH) (hok : HistsOK hs) (neg : Bool) (i : Nat) (lo hi : Int)
+    (el eh : Bool) :
     ResEq (applyRangeM (modelCatalog hs) neg i lo hi el eh) (applyRange (specCatalog hs) neg i lo hi el eh) := by
   unfold applyRangeM applyRange getIndexM getIndex modelCatalog specCatalog
   simp only [List.getElem?_map]
-  cases hs[i]? with
+  cases hidx : hs[i]? with
   | none => exact rfl
   | some h =>
+    have hokh := hok h (List.mem_of_getElem? hidx)
     simp only [Option.map_some, bind, Except.bind]
     have := rangePos_refines h lo hi el eh
     cases e1 : rangePosM (modelIndex h) lo hi el eh with
@@ -248,16 +548,71 @@ theorem applyRange_refines (hs : List IndexH) (neg : Bool) (i : Nat) (lo hi : In
         rw [e1, e2] at this
         cases neg
         · exact this
-        · exact negM_refines h a b this
+        · exact negM_refines h hokh a b this
 
-theorem leaves_refine (hs : List IndexH) :
-    LeavesEq (modelLeaves (modelCatalog hs)) (specLeaves (specCatalog hs)) :=
-  ⟨applyCmp_refines hs, applyRange_refines hs⟩
+/-- the model leaves, answered by the specification where a text leaf names no query string (never
+consulted on a tree with `leavesListed`) -/
+def patchedLeaves (hs : List IndexH) : Leaves :=
+  { cmp := fun c i v =>
+      if listedLeaf hs c i v then applyCmpM (modelCatalog hs) c i v else applyCmp (specCatalog hs) c i v
+    range := applyRangeM (modelCatalog hs) }
 
-/-- **End to end**: for all histories of all indexes, every tree has the same outcome over the index
-models as over the specification tables -/
-theorem applyQM_refines (hs : List IndexH) (q : Q) :
-    ResEq (applyQM (modelCatalog hs) q) (applyQ (specCatalog hs) q) :=
-  applyQL_congr (leaves_refine hs) q
+theorem leaves_refine (hs : List IndexH) (hok : HistsOK hs) :
+    LeavesEq (patchedLeaves hs) (specLeaves (specCatalog hs)) := by
+  refine ⟨fun c i v => ?_, applyRange_refines hs hok⟩
+  show ResEq (if listedLeaf hs c i v then _ else _) _
+  by_cases hl : listedLeaf hs c i v = true
+  · simp only [hl, if_true]; exact applyCmp_refines hs hok c i v hl
+  · simp only [hl, Bool.false_eq_true, if_false]; exact ResEq.refl _
+
+/-- **End to end**: for all histories of all indexes, every tree whose text leaves name listed query strings
+has the same outcome over the index models as over the specification tables -/
+theorem applyQM_refines (hs : List IndexH) (hok : HistsOK hs) (q : Q) (hq : leavesListed hs q = true) :
+    ResEq (applyQM (modelCatalog hs) q) (applyQ (specCatalog hs) q) := by
+  have e : applyQM (modelCatalog hs) q = applyQL (patchedLeaves hs) q := by
+    refine applyQL_ext (p := listedLeaf hs) (L := modelLeaves (modelCatalog hs)) (L' := patchedLeaves hs)
+      (listedLeaf_optClosed hs).neg ?_ (fun _ _ _ _ _ _ => rfl) q hq
+    intro c i v hl
+    show _ = (if listedLeaf hs c i v then _ else _)
+    simp only [hl, if_true]; rfl
+  rw [e]
+  exact applyQL_congr (leaves_refine hs hok) q
+
+/-- catalogs without a text index need no hypothesis -/
+def noText : IndexH → Bool
+  | .text _ _ _ _ _ => false
+  | _ => true
+
+theorem histsOK_of_noText (hs : List IndexH) (h : hs.all noText = true) : HistsOK hs := by
+  intro x hx
+  have := List.all_eq_true.mp h x hx
+  cases x <;> simp_all [noText, histOK]
+
+theorem listedLeaf_of_noText (hs : List IndexH) (h : hs.all noText = true) (c : Cmp) (i : Nat) (v : Val) :
+    listedLeaf hs c i v = true := by
+  unfold listedLeaf
+  cases hi : hs[i]? with
+  | none => rfl
+  | some x =>
+    have := List.all_eq_true.mp h x (List.mem_of_getElem? hi)
+    cases x <;> simp_all [noText, listedAt]
+
+mutual
+theorem leavesAll_of_forall {p : Cmp → Nat → Val → Bool} (hp : ∀ c i v, p c i v = true) :
+    ∀ q : Q, leavesAll p q = true
+  | .cmp c i v => hp c i v
+  | .range _ _ _ _ _ _ => rfl
+  | .and qs => by simp only [leavesAll]; exact leavesAllList_of_forall hp qs
+  | .or qs => by simp only [leavesAll]; exact leavesAllList_of_forall hp qs
+  | .not q => by simp only [leavesAll]; exact leavesAll_of_forall hp q
+theorem leavesAllList_of_forall {p : Cmp → Nat → Val → Bool} (hp : ∀ c i v, p c i v = true) :
+    ∀ qs : List Q, leavesAllList p qs = true
+  | [] => rfl
+  | q :: qs => by
+    simp only [leavesAllList, leavesAll_of_forall hp q, leavesAllList_of_forall hp qs, Bool.and_self]
+end
+
+theorem leavesListed_of_noText (hs : List IndexH) (h : hs.all noText = true) (q : Q) :
+    leavesListed hs q = true := leavesAll_of_forall (listedLeaf_of_noText hs h) q
 
 end Hyp.Query
